@@ -282,9 +282,18 @@ class C05(PropBase):
             txns = common.gen_journal(rng, cfg, opts)
             f = gen_filter(rng, txns, rng.choice([0, 0, 1, 1, 2, 3, 5]))
             layout = common.gen_layout(rng)
-            out.append({"op": "run", "kind": "depth%d" % depth_of(f), "cfg": cfg, "txns": txns, "layout": layout,
-                        "text": common.render_journal(txns, layout), "mfilter": f,
-                        "filter": json.dumps({"txnFilter": to_rust(f)}), "want": ["txns", "meta"]})
+            case = {"op": "run", "kind": "depth%d" % depth_of(f), "cfg": cfg, "txns": txns, "layout": layout,
+                    "text": common.render_journal(txns, layout), "mfilter": f,
+                    "filter": json.dumps({"txnFilter": to_rust(f)}), "want": ["txns", "meta"]}
+            # history: other selections made on the same loaded data before the reported one (everything, the
+            # negation, an unrelated filter); the unfiltered run is then preceded by the filter itself
+            if rng.random() < 0.5:
+                neg = json.dumps({"txnFilter": to_rust({"k": "not", "f": f})})
+                other = json.dumps({"txnFilter": to_rust(gen_filter(rng, txns, 1))})
+                case["pre"] = rng.choice([[None], [neg], [None, neg], [other], [other, None]])
+                case["pre_all"] = [case["filter"]]
+                case["kind"] += "+history"
+            out.append(case)
         return out
 
     def rerender(self, case):
@@ -294,14 +303,15 @@ class C05(PropBase):
     # the implementation is run with and without the filter
     def run_impl(self, cases):
         a = common.run_driver([common.TK_IMPL], [{k: v for k, v in c.items() if k not in ("txns", "mfilter", "layout")} for c in cases])
-        b = common.run_driver([common.TK_IMPL], [{k: v for k, v in c.items() if k not in ("txns", "mfilter", "layout", "filter")} for c in cases])
+        b = common.run_driver([common.TK_IMPL], [dict({k: v for k, v in c.items() if k not in ("txns", "mfilter", "layout", "filter", "pre", "pre_all")},
+                                                      **({"pre": c["pre_all"]} if c.get("pre_all") else {})) for c in cases])
         return [dict(x, all=y) for x, y in zip(a, b)]
 
     def impl_case(self, case):
         return case
 
     def model_case(self, case):
-        c = {k: v for k, v in case.items() if k not in ("text", "filter", "layout")}
+        c = {k: v for k, v in case.items() if k not in ("text", "filter", "layout", "pre", "pre_all")}
         c["cfg"] = model_cfg(case.get("cfg", {}))
         c["want"] = ["txns"]
         return c
@@ -357,6 +367,17 @@ class C05(PropBase):
                 return {"sig": "meta-checksum", "what": "metadata checksum is not the hash of the selected uuids"}
             if not m1 or not m2:
                 return {"sig": "meta-missing", "what": "audit metadata lacks checksum/size: %r" % text[:200]}
+            # … and so does the metadata of the unfiltered selection (made after the filtered one in history cases)
+            ameta = allr["out"].get("meta", {})
+            if ameta.get("r") == "OK" and ameta.get("v"):
+                a1 = re.search(r"SHA-256\s*:\s*([0-9a-f]{64})", ameta["v"])
+                a2 = re.search(r"[Ss]et size\s*:\s*(\d+)", ameta["v"])
+                ha = hashlib.sha256("".join(u + "\n" for u in sorted(t["uuid"] for t in everything)).encode()).hexdigest()
+                if a2 and int(a2.group(1)) != len(everything):
+                    return {"sig": "meta-size-all", "what": "metadata of the unfiltered set reports size %s for %d transactions"
+                            % (a2.group(1), len(everything))}
+                if a1 and a1.group(1) != ha:
+                    return {"sig": "meta-checksum-all", "what": "checksum of the unfiltered set is not the hash of all uuids"}
         return None
 
     def nontrivial(self, case, impl):
